@@ -9,6 +9,7 @@ from ..core import rs
 from . import coll_parts
 from .base1 import Hist1Prop
 from .c09 import rand_nd_op
+from ..sharing import sharing
 
 SNAP1 = ("bins", "freq", "err2", "under", "over", "inner", "dtype", "keep", "adaptive", "stats")
 SNAPN = ("bins", "shape", "freq", "err2", "missed", "dtype", "keep", "names", "adaptive")
@@ -141,7 +142,8 @@ class C12(Hist1Prop):
             except Exception as e:
                 log.append(f"{op['op']}: {type(e).__name__}: {e}"[:200])
                 ret = "REFUSED"
-            outs.append({"ret": ret, "regs": [None if h is None else impl1.snap1(h) for h in s.regs]})
+            outs.append({"ret": ret, "regs": [None if h is None else impl1.snap1(h) for h in s.regs],
+                         "_sharing": sharing(s.regs)})
         return {"outs": outs, "log": log}
 
     def mutation1(self, rng, tgt, b, pairs, w):
@@ -251,7 +253,8 @@ class C12(Hist1Prop):
                 ret = self.step_1d_in_nd(s, op, log)
             else:
                 ret = implnd.step(s, op, log)
-            outs.append({"ret": ret, "regs": [None if x is None else implnd.snapn(x) for x in s.regs]})
+            outs.append({"ret": ret, "regs": [None if x is None else implnd.snapn(x) for x in s.regs],
+                         "_sharing": sharing(s.regs)})
         return {"outs": outs, "log": log, "resolved": resolved}
 
     @staticmethod
@@ -286,7 +289,24 @@ class C12(Hist1Prop):
             return c
         return case
 
+    @staticmethod
+    def heap_differences(io):
+        """the heap model (Theorems/C12_Heap.lean) keeps all live histograms separated: mutable components that two live
+        objects of the implementation share are a difference between model and implementation"""
+        d = []
+        outs = io["outs"] if isinstance(io.get("outs"), list) else []
+        for k, o in enumerate(outs):
+            for i, j, what in (o.get("_sharing") or []) if isinstance(o, dict) else []:
+                d.append(f"heap: after step {k} registers {i} and {j} share {what} (Sep of the heap model: no two live histograms "
+                         f"share a mutable cell)")
+            if len(d) > 3:
+                break
+        return d
+
     def diff(self, case, model_ok, io):
+        hd = self.heap_differences(io)
+        if hd:
+            return hd
         if case.get("sub") == "coll":
             # statistics of arbitrary doubles carry rounding the exact model does not have; they are C14's subject, and
             # the oracle compares them between snapshots of the same object (exactly)
@@ -300,6 +320,33 @@ class C12(Hist1Prop):
                     a["ret"] = "ok1d"
             return super().diff(case, m, io)
         return super().diff(case, model_ok, io)
+
+    def neighbours(self, case):
+        """after a difference: the same history followed by one in-place operation on each register in turn -- if two objects
+        share a mutable cell, writing through one of them shows in the other"""
+        if case.get("sub") == "coll":
+            return
+        ops = case["ops"]
+        nreg = 1 + max([o.get("out", 0) for o in ops] + [o.get("h", 0) for o in ops])
+        nd = case.get("kind") == "histn"
+        for r in range(nreg):
+            for extra in ("fill_in", "fill_far", "imul", "fill_n"):
+                c = copy.deepcopy(case)
+                if nd:
+                    if extra == "imul":
+                        c["ops"].append({"op": "imul", "h": r, "c": "3", "k": "pyint"})
+                    elif extra == "fill_n":
+                        c["ops"].append({"op": "fill_n", "h": r, "_coord": "1/4", "w": "1", "wk": "pyint"})
+                    else:
+                        c["ops"].append({"op": "fill", "h": r, "_coord": "1/4" if extra == "fill_in" else "13/2", "w": "1", "wk": "pyint"})
+                else:
+                    if extra == "imul":
+                        c["ops"].append({"op": "imul", "h": r, "c": "3", "k": "pyint"})
+                    elif extra == "fill_n":
+                        c["ops"].append({"op": "fill_n", "h": r, "vs": ["1/4", "5/4", "19/2"], "ws": None})
+                    else:
+                        c["ops"].append({"op": "fill", "h": r, "v": "1/4" if extra == "fill_in" else "35/2", "w": "2", "wk": "pyint"})
+                yield c
 
     def shrink_candidates(self, case):
         if case.get("sub") == "coll":
